@@ -46,6 +46,8 @@ func (d *Decoder) decodeTypedUint() (Type, uint64, error) {
 		nfollow = 4
 	case 27:
 		nfollow = 8
+	case 28, 29, 30, 31:
+		return t, 0, fmt.Errorf("cbor: Reserved or indefinite-length additional information %d is not supported", ai)
 	default:
 		nfollow = 0
 	}
